@@ -14,23 +14,23 @@ def rangesValid : List Range → Bool
   | [r] => decide (r.1 ≤ r.2)
   | r :: q :: rest => decide (r.1 ≤ r.2) && decide (q.2 + 1 < r.1) && rangesValid (q :: rest)
 
-def covers (rs : List Range) (q : PN) : Bool := rs.any (fun r => decide (r.1 ≤ q) && decide (q ≤ r.2))
+def covers (rs : List Range) (q : Int) : Bool := rs.any (fun r => decide (r.1 ≤ q) && decide (q ≤ r.2))
 
 /-- every number covered by `rs` is in `R` and `≥ floor` (bounded expansion: a range wider than
     `R` is long cannot be sound) -/
-def coveredSubset (rs : List Range) (R : List PN) (floor : PN) : Bool :=
+def coveredSubset (rs : List Range) (R : List Int) (floor : Int) : Bool :=
   rs.all fun r =>
     let w := (r.2 - r.1 + 1).toNat
     decide (w ≤ R.length) && decide (floor ≤ r.1) &&
       (List.range w).all (fun i => R.contains (r.1 + (i : Int)))
 
-def maxOf : List PN → Option PN
+def maxOf : List Int → Option Int
   | [] => none
   | x :: xs => some (xs.foldl max x)
 
 structure SpaceGhost where
-  R : List PN := []              -- numbers handed to ReceivedPacket that were at/above the forget threshold
-  unackedAE : List (PN × Int) := []   -- accepted ack-eliciting packets not yet covered by a returned ACK
+  R : List Int := []              -- numbers handed to ReceivedPacket that were at/above the forget threshold
+  unackedAE : List (Int × Int) := []   -- accepted ack-eliciting packets not yet covered by a returned ACK
   lastAck : Option (List Range) := none
   dropped : Bool := false
 deriving Repr
@@ -39,7 +39,7 @@ structure Ghost where
   ini : SpaceGhost := {}
   hs : SpaceGhost := {}
   app : SpaceGhost := {}
-  forgetBelow : PN := 0          -- max IgnorePacketsBelow so far (app data)
+  forgetBelow : Int := 0          -- max IgnorePacketsBelow so far (app data)
   aeSinceAck : Nat := 0
 deriving Repr
 
